@@ -294,6 +294,24 @@ def setExpr (sched : Sched) (s : MState) (p : Path) (e : Expr) : Res :=
       | .error x => (s1, some x)
       | .ok v => writeAndRun sched s1 p v
 
+/-- the body of a function produced by `gen_fun`: plain assignments of the arguments to their
+    locations, then the listed tasks in order; it runs on the containers without the manager -/
+def execGen (sched : Sched) (s : MState) (args : List (Path × Val)) : Res :=
+  let rec assign (s : MState) : List (Path × Val) → Res
+    | [] => (s, none)
+    | (p, v) :: rest =>
+      match writeRef s p v with
+      | (s1, some x) => (s1, some x)
+      | (s1, none) => assign s1 rest
+  match assign s args with
+  | (s1, some x) => (s1, some x)
+  | (s1, none) =>
+    -- `mk_fun` (repaired): the start set is the owner chains of all argument refs
+    match (sched (findTaskids s1.idx (args.flatMap (fun a => chainR a.1)))).mapM (fun id =>
+        match lookDef s1.defs id with | some t => Except.ok t | none => Except.error Err.keyError) with
+    | .error x => (s1, some x)
+    | .ok l => runTasks s1 l
+
 /-- current expression of a location (`ref._expr`) -/
 def exprOf (s : MState) (p : Path) : Option Expr :=
   match lookDef s.defs p with
